@@ -105,6 +105,11 @@ pub fn judge(text: &str, is_modern: bool, with_include: Option<&str>) -> Result<
         ));
     }
     // D: the command line compiler with optimisation requested, output re-assembled
+    // In the dialects without int_fix the *text* the tools print is lossy by documented design (a
+    // literal with a redundant leading byte prints as the number it spells) and `run` has no other
+    // output for a modern program: for those dialects the comparisons that go through printed text
+    // are made after reducing every atom to its minimal integer spelling on both sides.
+    let legacy_modern = crate::gen_lisp::MODERN.iter().any(|d| !d.int_fix() && text.contains(d.sigil()));
     let run_text = |optimize: bool| -> Result<String, String> {
         let mut s = Stream::new(None);
         let symout = dir.path().join("main.sym").to_string_lossy().to_string();
@@ -133,9 +138,16 @@ pub fn judge(text: &str, is_modern: bool, with_include: Option<&str>) -> Result<
         });
         results.push(("RunAndCompileInputData(-O).compile_modern", r));
     }
+    fn minimal(v: &V) -> V {
+        match v {
+            V::A(b) => V::A(chialisp::util::u8_from_number(chialisp::util::number_from_u8(b))),
+            V::P(x, y) => V::P(std::rc::Rc::new(minimal(x)), std::rc::Rc::new(minimal(y))),
+        }
+    }
     for (name, r) in &results {
         match r {
             Ok(v) if v == &a => {}
+            Ok(v) if legacy_modern && name.contains("printed text") && minimal(v) == minimal(&a) => {}
             Ok(v) => {
                 return Err(Viol::new(
                     &format!("entry-points-differ:{}", name.split(' ').next().unwrap_or("")),
@@ -168,13 +180,14 @@ pub fn judge(text: &str, is_modern: bool, with_include: Option<&str>) -> Result<
             });
             match (&dbg, &printed) {
                 (Ok(x), Ok(y)) if x == y => {}
+                (Ok(x), Ok(y)) if legacy_modern && minimal(x) == minimal(y) => {}
                 (Err(_), Err(_)) => {}
                 _ => {
                     return Err(Viol::new(
                         &format!("cldb-vs-run:optimize={optimize}"),
                         format!("run prints: {}", printed.as_ref().map(short).unwrap_or_else(|e| e.clone())),
                         format!("cldb compiles: {}", dbg.as_ref().map(short).unwrap_or_else(|e| e.clone())),
-                        case(json!({"optimize": optimize})),
+                        case(json!({"optimize": optimize, "run_hex": printed.as_ref().map(|v| hex(&v.ser())).unwrap_or_default(), "cldb_hex": dbg.as_ref().map(|v| hex(&v.ser())).unwrap_or_default()})),
                     ))
                 }
             }
@@ -188,7 +201,7 @@ impl Prop for C11Prop {
         "C11"
     }
     fn rule(&self) -> &'static str {
-        "C01/C03 generator programs under every sigil and as classic programs, with and without an include file found through the search path. Oracle: bytes of compile_clvm_text(.., classic_with_opts=true) [the Python binding's call] == compile_clvm_inner(.., false) [the wasm binding's call] == the hex file written by compile_clvm == assemble(text printed by launch_tool run -O -i dir file) == RunAndCompileInputData(-O).compile_modern (sigil programs); and for sigil programs what cldb's input path compiles with given flags == what run prints with the same flags (with and without -O). The pyo3/wasm glue itself is not compiled; the exact library calls with the options the bindings construct are made. Non-trivial: the program has >= 1 helper. Distinct by hash of the source."
+        "C01/C03 generator programs under every sigil and as classic programs, with and without an include file found through the search path. Oracle: bytes of compile_clvm_text(.., classic_with_opts=true) [the Python binding's call] == compile_clvm_inner(.., false) [the wasm binding's call] == the hex file written by compile_clvm == assemble(text printed by launch_tool run -O -i dir file) [for the dialects without int_fix, whose printed text is lossy by documented design, compared after reducing atoms to their minimal integer spelling] == RunAndCompileInputData(-O).compile_modern (sigil programs); and for sigil programs what cldb's input path compiles with given flags == what run prints with the same flags (with and without -O). The pyo3/wasm glue itself is not compiled; the exact library calls with the options the bindings construct are made. Non-trivial: the program has >= 1 helper. Distinct by hash of the source."
     }
     fn sections(&self, tier: Tier) -> Vec<Section> {
         vec![Section {
